@@ -16,8 +16,9 @@ UpgVals  == { << << "websocket" >> >>, << << "WebSocket" >> >>, << << "foo", "we
 ConVals  == { << << "Upgrade" >> >>, << << "upgrade" >> >>, << << "keep-alive", "Upgrade" >> >>,
               << << "close" >> >>, << >>, << << "keep-alive" >>, << "upGrade" >> >> }
 AccVals  == {"ok", "ows", "stale", "other", "key", "absent", "swap", "lower", "trunc", "empty", "twice"}
-Bodies   == { << 0, FALSE >>, << 0, TRUE >>, << 1, TRUE >>, << 10, TRUE >>, << 1023, TRUE >>, << 1024, TRUE >>, << 1025, TRUE >>,
-              << 3000, FALSE >>, << 5000, TRUE >>, << 5000, FALSE >> }
+(* (body lengths, segmentation and buffer sizes are enumerated systematically by part "body" below) *)
+Bodies   == { << 0, FALSE >>, << 0, TRUE >>, << 10, TRUE >>, << 1023, TRUE >>, << 1024, TRUE >>, << 1025, TRUE >>, << 5000, TRUE >>,
+              << 5000, FALSE >> }
 Exts     == {"none", "pmd2", "pmd_s", "pmd_c", "pmd0", "other", "other_pmd2"}
 
 B2I(b) == IF b THEN 1 ELSE 0
